@@ -114,3 +114,19 @@ def injected_structure_prepared(chk, rid):
            'host rule; asserting full elimination rejects valid programs',
            fi=fi, node=c)
   return v, sites
+
+
+def scanner_state_expr(fn_node):
+  """Text of the expression the scanner dispatches on (the innermost open
+  state): the left side of the test against '3', the state symbol of a
+  triple-quoted string, which is never a character of the input being tested.
+  Today `State()`; a local computed once per step is the same thing."""
+  from sa.model import tables_const_strings
+  for x in ast.walk(fn_node):
+    if isinstance(x, ast.Compare) and len(x.ops) == 1 and \
+        isinstance(x.ops[0], (ast.Eq, ast.NotEq, ast.In, ast.NotIn)):
+      c = x.comparators[0]
+      vals = tables_const_strings(c)
+      if vals is not None and '3' in vals and len(vals) <= 8:
+        return norm(x.left)
+  raise AnalysisError('Traverse: the test for the triple-quote state is not recognised')
